@@ -785,6 +785,10 @@ func (gs *groupScen) wireModelHooks() {
 				}
 				m.mu.Lock()
 				active, crashed := m.consumeActive, m.crashed
+				// (a Consume call that has not got as far as Setup holds no session: Close may overtake it)
+				if n := len(m.sessions); n == 0 || m.sessions[n-1].setups == 0 || m.sessions[n-1].returnE != 0 || m.sessions[n-1].memberID != r.MemberId {
+					active = false
+				}
 				m.mu.Unlock()
 				if active && !crashed {
 					gs.r.violate("C07.lifecycle-order", "member %d: LeaveGroup (member %q) reached the coordinator while its Consume call had not returned yet: the group was left before the session had ended and committed", m.idx, r.MemberId)
